@@ -6,6 +6,8 @@ INVARIANT Inv_C03
 INVARIANT Inv_C03_first
 INVARIANT Inv_C04
 INVARIANT Inv_C12
+INVARIANT Inv_C11
+INVARIANT Inv_C11_once
 INVARIANT Inv_C15
 INVARIANT EmitReplay
 CHECK_DEADLOCK TRUE
